@@ -179,3 +179,39 @@ MUTANTS += [
  dict(id='c12-unfix-60', props=['C12'], file=U, old="        if ((minutes or hours) and seconds >= 60) or (hours and minutes >= 60):", new="        if False:"),
  dict(id='c12-record-ulpc', props=['C12'], file=U, old="            if record and distance>record*ulpc:", new="            if record and distance>record*ulpc*ulpc:"),
 ]
+
+HJ = 'athlib/highjump.py'
+MUTANTS += [
+ # ---- C02 / C03 / C08 -----------------------------------------------------------
+ dict(id='c02-guard-after-padding', props=['C02'], file=HJ,
+      old="""        if self.eliminated or self.dismissed:
+            what = 'retiring' if self.has_retired else 'being eliminated' if self.eliminated else 'passing'
+            raise RuleViolation("Cannot %s after %s" % (label,what))
+        atts = self.attempts_by_height
+        # they may have skipped some, pas with empty strings
+        while len(atts) < height_count:
+            atts.append('')
+""", new="""        atts = self.attempts_by_height
+        # they may have skipped some, pas with empty strings
+        while len(atts) < height_count:
+            atts.append('')
+        if self.eliminated or self.dismissed:
+            what = 'retiring' if self.has_retired else 'being eliminated' if self.eliminated else 'passing'
+            raise RuleViolation("Cannot %s after %s" % (label,what))
+"""),
+ dict(id='c02-pass-resets-failures', props=['C02'], file=HJ,
+      old="        self.attempts_by_height[-1] += '-'\n        self.dismissed = True", new="        self.attempts_by_height[-1] += '-'\n        self.consecutive_failures = 0\n        self.dismissed = True"),
+ dict(id='c02-bar-equal-ok', props=['C02'], file=HJ, old="(prev_height >= new_height)", new="(prev_height > new_height)"),
+ dict(id='c02-no-dismiss-reset', props=['C02'], file=HJ, old="            if not j.eliminated:\n                j.dismissed = False", new="            if not j.eliminated and self.state!='won':\n                j.dismissed = False"),
+ dict(id='c02-log-before', props=['C02'], file=HJ,
+      old="        jumper.failed(len(self.heights), self.bar_height)\n        self.actions.append(('failed', bib))", new="        self.actions.append(('failed', bib))\n        jumper.failed(len(self.heights), self.bar_height)"),
+ dict(id='c02-late-add', props=['C02'], file=HJ, old="        if self.state!='scheduled':\n            raise RuleViolation(\"Cannot add jumpers", new="        if self.state not in ('scheduled','started'):\n            raise RuleViolation(\"Cannot add jumpers"),
+ dict(id='c02-unfix-reinstate', props=['C02', 'C03'], file=HJ, old="                    if self.state=='jumpoff' and len(j.attempts_by_height)<len(self.heights):", new="                    if False:"),
+ dict(id='c03-unfix-best', props=['C03'], file=HJ, old="        if height > self.highest_cleared:\n", new="        if True:\n"),
+ dict(id='c03-drop-third-key', props=['C03'], file=HJ, old="            failures_at_height,\n            failures_before_and_at_height,\n            )", new="            failures_at_height,\n            0,\n            )"),
+ dict(id='c03-failures-after-best', props=['C03'], file=HJ, old="sum(_.count('x') for _ in self.attempts_by_height[:x])", new="sum(_.count('x') for _ in self.attempts_by_height) - failures_at_height"),
+ dict(id='c03-dense-ranking', props=['C03'], file=HJ, old="                    j._place = i + 1", new="                    j._place = pj._place + 1"),
+ dict(id='c03-status-swap', props=['C03'], file=HJ, old="(3 if x<0 else 2) if self.eliminated else (1 if x<0 else 0)", new="(2 if x<0 else 3) if self.eliminated else (1 if x<0 else 0)"),
+ dict(id='c03-tie-detect-last', props=['C03', 'C02'], file=HJ, old="if len(rankj)> 1 and rankj[1]._place==1:", new="if len(rankj)> 1 and rankj[-1]._place==1:"),
+ dict(id='c03-place-for-unplaced', props=['C03'], file=HJ, old="        elif self.highest_cleared_index<0:\n            return ''", new="        elif self.highest_cleared_index<0 and not self.eliminated:\n            return ''"),
+]
